@@ -39,7 +39,7 @@ var realCommon = []string{"manager (service loop, jobs, views)", "builder + gopa
 var stubCommon = []string{"job scheduling and loop barriers (controller)", "wall clock (simrt.Now)", "tag event ticker", "map iteration order (seeded)", "runtime.NumCPU", "captured traffic (netsim)", "watch-directory ingestion, PCAP-over-IP sockets, webhooks, websocket fan-out: not exercised"}
 
 var checks = map[string]checkCfg{
-	"C05": {Engine: "bsim", QuickS: 25, ThoroughS: 900, Level: "exploration",
+	"C05": {Engine: "bsim", Engine2: "mgrsim", QuickS: 25, ThoroughS: 900, Level: "exploration",
 		Rule:   "one case = one seeded capture (1-12 TCP/UDP v4/v6 conversations with known ground truth, path faults: segmentation, bounded reordering, retransmission, interleaving; 1-6 capture files cut at seeded packet positions; seeded chronological import batching; seeded snapshot interval). distinct = distinct hash of (conversation shapes, cuts, batching); non-trivial = more than one capture file or a conversation spanning files",
 		Real:   []string{"builder.FromPcap", "gopacket reassembly", "udpreassembly", "libpcap (cgo) reading real pcap/pcapng files", "index writer/reader"},
 		Stub:   []string{"network path and capture tap (netsim)", "wall clock", "map order"},
@@ -393,7 +393,7 @@ func runCheck(prop, tier string) int {
 		if i >= 5 {
 			break
 		}
-		rf := sim.ReplayFile{Property: prop, Engine: cfg.Engine, Oracle: "infra", Signature: "hang", Seed: h.Seed, Run: h.Run, Plan: h.Plan}
+		rf := sim.ReplayFile{Property: prop, Engine: engineOf(cfg, h.Plan), Oracle: "infra", Signature: "hang", Seed: h.Seed, Run: h.Run, Plan: h.Plan}
 		path := filepath.Join(b.scratch, fmt.Sprintf("hang%d.json", i))
 		rb, _ := json.Marshal(rf)
 		os.WriteFile(path, rb, 0o644)
@@ -444,10 +444,7 @@ func runCheck(prop, tier string) int {
 	reported := 0
 	for _, k := range keys {
 		ol := a.viols[k]
-		eng := cfg.Engine
-		if cfg.Engine2 != "" && (bytes.Contains(ol.Plan, []byte(`"stacks"`)) || bytes.Contains(ol.Plan, []byte(`"cleanup_min"`))) {
-			eng = cfg.Engine2
-		}
+		eng := engineOf(cfg, ol.Plan)
 		rf := sim.ReplayFile{Property: ol.Viol.Property, Engine: eng, Oracle: ol.Viol.Oracle, Signature: ol.Viol.Signature, Message: ol.Viol.Message, Seed: ol.Seed, Run: ol.Run, Plan: ol.Plan, Steps: ol.Steps}
 		if cfg.Race && len(ol.Log) > 0 {
 			rf.Message += "\n" + ol.Log[0]
@@ -513,6 +510,22 @@ func runCheck(prop, tier string) int {
 		fmt.Printf("OK property=%s tier=%s runs=%d distinct_schedules=%d wall=%.0fs\n", prop, tier, a.runs, len(a.sched), time.Since(t0).Seconds())
 	}
 	return exit
+}
+
+// engineOf tells which engine made a plan (a check may run two engines).
+func engineOf(cfg checkCfg, plan []byte) string {
+	if cfg.Engine2 == "" {
+		return cfg.Engine
+	}
+	switch {
+	case bytes.Contains(plan, []byte(`"sched_seed"`)):
+		return "mgrsim"
+	case bytes.Contains(plan, []byte(`"cleanup_min"`)):
+		return "cachesim"
+	case bytes.Contains(plan, []byte(`"hist"`)):
+		return "bsim"
+	}
+	return cfg.Engine
 }
 
 func exitCode(err error) int {
